@@ -7,14 +7,19 @@ from vlib import tlc
 from vlib.common import Broken
 
 
-def scripts(ctx, deep=False):
-    """Returns (TlcResult of the exhaustive run, [script files])."""
+def scripts(ctx, deep=False, drop=False):
+    """Returns (TlcResult of the exhaustive run, [script files]).  drop: also the scripts in which the connection is lost at some
+    point of the call (a proxy between client and server cuts it)."""
     r = tlc.run_tlc(ctx.scratch("svccall"), "SvcCall.tla", "SvcCall.cfg", timeout=1800, workers=8, out_name="svccall.out", heap="4g")
     tlc.require_ok(r, "SvcCall")
     rf = tlc.run_tlc(ctx.scratch("svccall-faulty"), "SvcCall.tla", "SvcCall_faulty.cfg", timeout=600, workers=2, out_name="svcf.out", heap="2g")
     if "RefinesRpc is violated" not in rf.out and rf.violated != "RefinesRpc":
         raise Broken("SvcCall with a stream end nobody sent still refines Rpc: the refinement check is vacuous")
     files = [r.outfile]
+    if drop:
+        rd = tlc.run_tlc(ctx.scratch("svccall-drop"), "SvcCall.tla", "SvcCall_drop.cfg", timeout=1800, workers=8, out_name="svcdrop.out", heap="6g")
+        tlc.require_ok(rd, "SvcCall (lost connection)")
+        files.append(rd.outfile)
     if deep:
         rs = tlc.run_tlc(ctx.scratch("svccall-sim"), "SvcCall.tla", "SvcCall_sim.cfg", timeout=1800, workers=1, out_name="svcsim.out", heap="4g",
                          simulate="num=3000", depth=40, seed=ctx.seed)
@@ -45,6 +50,7 @@ def run_rpc(ctx, files, limit):
             raise Broken("msvc executed nothing")
         for k in ("scripts", "steps", "of"):
             total[k] += summary[k]
+        total["lost"] = total.get("lost", 0) + summary.get("lost", 0)
         for k, v in summary["by_kind"].items():
             total["by_kind"][k] = total["by_kind"].get(k, 0) + v
     return total
